@@ -2112,6 +2112,8 @@ class Parser:
         self.errors.append(error)
 
     def validate_expression(self, expression: E, args: list | None = None) -> E:
+        if _VERIF:
+            _verif.step("p")
         if self.max_nodes > -1:
             self._node_count += 1
             if self._node_count > self.max_nodes:
